@@ -52,6 +52,12 @@ func main() {
 			p, _ := props.Get(id)
 			fmt.Printf("%s  %s\n", id, p.Title)
 		}
+	case "witness":
+		fs := flag.NewFlagSet("witness", flag.ExitOnError)
+		prop := fs.String("property", "", "property id")
+		limit := fs.Int("limit", 0, "max mutants (0 = all)")
+		_ = fs.Parse(os.Args[2:])
+		os.Exit(runWitness(*prop, *limit))
 	case "explain":
 		os.Exit(cmdExplain(os.Args[2:]))
 	default:
@@ -64,16 +70,38 @@ func cmdRun(args []string) int {
 	fs := flag.NewFlagSet("run", flag.ExitOnError)
 	prop := fs.String("property", "", "property id")
 	tier := fs.String("tier", "quick", "quick|thorough")
+	dry := fs.Bool("dry", false, "print violations as JSON, write nothing")
+	overlay := fs.String("overlay", "", "file=replacement[,file=replacement]: analyse with these files replaced")
 	_ = fs.Parse(args)
-	if t := os.Getenv("VERIF_TIER"); t == "quick" || t == "thorough" {
+	if t := os.Getenv("VERIF_TIER"); (t == "quick" || t == "thorough") && !*dry {
 		*tier = t
 	}
-	return runProperty(*prop, *tier, nil)
+	var ov map[string][]byte
+	if *overlay != "" {
+		ov = map[string][]byte{}
+		for _, kv := range strings.Split(*overlay, ",") {
+			f, r, ok := strings.Cut(kv, "=")
+			if !ok {
+				continue
+			}
+			b, err := os.ReadFile(r)
+			if err != nil {
+				fmt.Fprintln(os.Stderr, err)
+				return 2
+			}
+			ov[f] = b
+		}
+	}
+	code := runProperty(*prop, *tier, ov, *dry)
+	if code == 0 && *tier == "thorough" && !*dry {
+		code = runWitness(*prop, 0)
+	}
+	return code
 }
 
 // runProperty runs one property against the repository (with an optional overlay) and returns the
 // exit code.
-func runProperty(id, tier string, overlay map[string][]byte) int {
+func runProperty(id, tier string, overlay map[string][]byte, dry bool) int {
 	pr, err := props.Get(id)
 	if err != nil {
 		fmt.Fprintln(os.Stderr, err)
@@ -84,6 +112,9 @@ func runProperty(id, tier string, overlay map[string][]byte) int {
 	rep.Declined = pr.Declined
 	rep.Assumptions = pr.Assumptions
 	p, err := engine.Load(engine.LoadOpts{Dir: repoDir(), AllDeps: pr.NeedSSA, Overlay: overlay})
+	if err != nil && dry {
+		return rep.FinishDry(err)
+	}
 	if err != nil {
 		// no verdict is possible on a tree that does not load: this is a failure of the check
 		fmt.Println("ERROR:", err)
@@ -104,6 +135,9 @@ func runProperty(id, tier string, overlay map[string][]byte) int {
 		}()
 		pr.Run(c, tier)
 	}()
+	if dry {
+		return rep.FinishDry(nil)
+	}
 	return rep.Finish()
 }
 
@@ -130,7 +164,7 @@ func cmdExplain(args []string) int {
 	if prop == "" {
 		return 2
 	}
-	return runProperty(prop, "quick", nil)
+	return runProperty(prop, "quick", nil, false)
 }
 
 func load(rel string) (*engine.Prog, *engine.Analysis, []*engine.Path) {
@@ -140,7 +174,11 @@ func load(rel string) (*engine.Prog, *engine.Analysis, []*engine.Path) {
 		os.Exit(2)
 	}
 	a := engine.NewAnalysis(p)
-	paths, err := a.Paths(rel)
+	opt := engine.PathOpts{NoInline: os.Getenv("OCC_NOINLINE") != ""}
+	if r := os.Getenv("OCC_ROOTS"); r != "" {
+		opt.Roots = strings.Split(r, ",")
+	}
+	paths, err := a.PathsOpt(rel, opt)
 	if err != nil {
 		fmt.Fprintln(os.Stderr, err)
 		os.Exit(2)
